@@ -153,9 +153,11 @@ def main(tier, seed):
         shapes.append((k, (k, ('symint', 0), [a, b, ('Placeholder',)])))
     shapes += [('Negation', ('Negation', a))] + [(k, (k, a, b)) for k in CATEGORY if CATEGORY[k][1] in ('BinaryVec', 'BinarySet')]
     shapes += [('Negation', ('Negation', ('Similarity', a, ('SetExtension', [b, c])))), ('Inheritance', ('Inheritance', ('ImageExtension', 1, [a, b]), ('Conjunction', [a, c])))]
+    from shapes import gen_terms
+    shapes += [(t[0], t) for nm, t in gen_terms(40 if tier == 'quick' else 600, seed, depth=3)]
     R.assumptions += ['shapes: all 30 constructors (1..3 components), images with every index 0..n for n<=3 and a symbolic index, two nestings; names 1 symbolic char',
                       'unordered accessors are compared as sets']
-    R.run_query(Query('enum-accessors', 'c14', 'path', [dict(shape=s) for s in shapes], '%d term shapes' % len(shapes)), confirm, key_of)
+    R.run_query(Query('enum-accessors', 'c14', 'path', [dict(shape=s) for s in shapes], '%d term shapes (incl. generated nested shapes of depth <= 3, deterministic per VERIF_SEED)' % len(shapes)), confirm, key_of)
     conc = [(k, (k, 'x')) for k in c17.NAMED] + [('Placeholder', ('Placeholder',)), ('Interval', ('Interval', 3))] + \
            [(k, (k, [('Word', 'a'), ('Word', 'b')])) for k in c17.SETLIKE + ('Product', 'ConjunctionSequential')] + \
            [('ImageExtension', ('ImageExtension', 1, [('Word', 'a'), ('Word', 'b')])), ('Negation', ('Negation', ('Word', 'a')))] + \
